@@ -356,6 +356,13 @@ func genC16w(tier string, r *rng) {
 			}
 		}
 		seq = append(seq, "fl", "w:aa", "fl", "ff", "wt:bb", "av")
+		// the error outlives ResetOp (same frame stream); only Reset (a new session) clears it
+		switch r.intn(4) {
+		case 0:
+			seq = append(seq, fmt.Sprintf("ro:%d", 1+r.intn(2)), "w:"+hx(r.bytes(1+r.intn(2*av))), "fl", "av")
+		case 1:
+			seq = append(seq, fmt.Sprintf("rs:%s:%d", sd, 1+r.intn(2)), "w:"+hx(r.bytes(1+r.intn(2*av))), "fl", "av")
+		}
 		// find how many destination writes the sequence makes when nothing fails, then fail each index
 		for fail := 0; fail < 14; fail++ {
 			writerSeq(sd, 1+r.intn(2), ctor, "-", fmt.Sprint(fail), i, seq)
